@@ -8,8 +8,9 @@ NEW = {
             "its own slice (reshaped) of A(J), J the true block Jacobian (rows = output scalars in the order "
             "given, columns = input scalars), and changes no other .grad; unreachable inputs give zero column "
             "blocks; rows follow tensor order; the deposit of any Gramian-based or fixed weighting does not "
-            "depend on the enumeration order of the inputs (C05_input_order_irrelevant). Partial correctness "
-            "(acceptance is a hypothesis; a Q-instance Example shows it is satisfiable). Tied to /repo by random "
+            "depend on the enumeration order of the inputs (C05_input_order_irrelevant). TOTALITY is proved too (C01_accepts: valid "
+            "arguments + inputs expecting a grad + one engine run possible + aggregator accepting => accepted, for every "
+            "chunk size; C01_failure_causes lists the only ways an argument-valid call can fail). Tied to /repo by random "
             "programs whose exact integer Jacobians come from the harness' own forward-mode interpreter: "
             "implementation == exact oracle == Coq model (run under 3 enumeration orders, 5 chunk sizes), f64 "
             "exact, f32 1e-4; plus the pipeline with 10 other deterministic aggregators.",
@@ -24,7 +25,8 @@ NEW = {
             "aggregators, all chunk sizes: an accepted mtl_backward_model call adds to every shared parameter its "
             "slice of A(M), row i of M = gradient of losses[i] pulled back through the features (row i is built "
             "from losses[i]), to every task parameter the gradients of the tasks listing it, in order, and "
-            "changes nothing else. Correspondence: random programs (1-3 features incl. nested, 1-4 tasks, 0-3 "
+            "changes nothing else; C02_accepts: argument checks + every engine run of the call succeeding in sequence + "
+            "aggregator accepting => accepted. Correspondence: random programs (1-3 features incl. nested, 1-4 tasks, 0-3 "
             "own parameters, sharing, additive same-shape parameters), explicit/defaulted/reordered lists, "
             "Constant(distinct signed weights)/Sum/Mean, 4 chunk sizes: implementation == exact oracle == Coq "
             "model; plus UPGrad/DualProj(pref)/Krum through the pipeline.",
@@ -97,13 +99,15 @@ NEW = {
             "conjunction IFF same required keys and disjoint outputs, Stack/Select/ordered-set rules; a wrong key "
             "set gives ValueError with the store unchanged; on success the result has exactly the declared keys "
             "and type (lca of the parts = least upper bound in the subclass order); composition associative "
-            "(construction, keys, application), conjunction commutative for side-effect-free members. "
+            "(construction, keys, application), conjunction commutative and associative for side-effect-free members "
+            "(all groupings accepted together, same keys, same mapping and type whenever two groupings both succeed; a "
+            "kernel-checked counterexample shows SUCCESS itself depends on the grouping, reproduced on the implementation). "
             "Correspondence: EXHAUSTIVE over all terms of depth <= 2 on 2 keys (quick; 3 keys thorough) built "
             "from Init/Select/Diagonalize/Stack/Conjunction/Composition/Accumulate + sampled depth 3: constructor "
             "acceptance, key sets, results (type, keys, VALUES, .grad effects) on right and wrong key sets; all "
             "5 dictionary types x key/value shapes; mutators raise TypeError (observed).",
             "DESIGN.md §8 C14, §15",
-            "Trusted: Coq kernel; Autojac.v; dictionary immutability and conjunction associativity are checked by "
+            "Trusted: Coq kernel; Autojac.v; dictionary immutability is checked by "
             "the exhaustive correspondence, not proved; applications are compared on well-typed inputs.",
             "Coq proof (structural induction) + exhaustive small-scope correspondence"),
     "C15": ("proof",
